@@ -593,4 +593,165 @@ theorem specVisible_vacuum (s : Snapshot) (h : Nat) (L : LRow) (ha : AtOrAbove s
       have hd : decide (L.cur.creator < h) = false := by simp [hge]
       rw [hd, firstVisible_keepHist s h L.hist (fun v hv => ha v (by simp only [List.mem_cons]; exact Or.inr hv))]
 
+/-! ### size bookkeeping -/
+
+theorem emitVal_length (P : Params) (hP : P.Wf) (k : Kind) (c : Nat) (p : Bytes) :
+    c + (emitVal P k c p).length = alignUp c (P.align k) + (encPayload k p).length := by
+  have := alignUp_ge (c := c) (hP.align_ok k)
+  simp only [emitVal, List.length_append, padTo_length]; omega
+
+theorem sizeCells_eq (P : Params) (hP : P.Wf) : ∀ (ks : List Kind) (cs : List Cell) (c : Nat),
+    sizeCells P c ks cs = c + (emitCells P c ks cs).length := by
+  intro ks
+  induction ks with
+  | nil => intro cs c; simp [sizeCells, emitCells]
+  | cons k ks ih =>
+    intro cs c
+    cases cs with
+    | nil => simp [sizeCells, emitCells]
+    | cons x cs =>
+      cases x with
+      | none => simp only [sizeCells, emitCells, ih]
+      | some p =>
+        simp only [sizeCells, emitCells, List.length_append]
+        rw [← emitVal_length P hP k c p, ih]
+        omega
+
+theorem emitChanges_shift (P : Params) (hP : P.Wf) (kinds : List Kind) (old : List Cell) (B : Nat) (hB : 8 ∣ B) :
+    ∀ (is : List Nat) (rel : Nat), emitChanges P kinds old (B + rel) is = emitChanges P kinds old rel is := by
+  intro is
+  induction is with
+  | nil => intro rel; rfl
+  | cons i is ih =>
+    intro rel
+    simp only [emitChanges]
+    split
+    · rename_i p k _ _
+      rw [Nat.add_assoc, emitVal_shift P hP k B (rel + 1) hB]
+      have : B + (rel + 1) + (emitVal P k (rel + 1) p).length = B + (rel + 1 + (emitVal P k (rel + 1) p).length) := by omega
+      rw [this, ih]
+    · rw [Nat.add_assoc, ih]
+
+theorem sizeChanges_eq (P : Params) (hP : P.Wf) (kinds : List Kind) (old : List Cell) : ∀ (is : List Nat) (c : Nat),
+    sizeChanges P kinds old c is = c + (emitChanges P kinds old c is).length := by
+  intro is
+  induction is with
+  | nil => intro c; simp [sizeChanges, emitChanges]
+  | cons i is ih =>
+    intro c
+    simp only [sizeChanges, emitChanges]
+    split
+    · rename_i p k _ _
+      simp only [List.length_cons, List.length_append]
+      rw [← emitVal_length P hP k (c + 1) p, ih]
+      omega
+    · simp only [List.length_cons, ih]; omega
+
+theorem encMain_length (P : Params) (hP : P.Wf) (sch : Schema) (xmin : Nat) (xmax : Option Nat) (ver : Nat)
+    (keys : List Bytes) (vals : List Cell) :
+    (encMain P sch xmin xmax ver keys vals).length
+      = sizeCells P (sizeCells P (P.hdrSize + bitmapSize vals.length) sch.keys (keys.map some)) sch.vals vals := by
+  simp only [encMain, List.length_append, encHeader_length P hP, mkBitmap_length, sizeCells_eq P hP, hP.hdr]
+
+/-- `compute_initial_size` is the number of bytes `build` writes -/
+theorem computeInitialSize_eq (P : Params) (hP : P.Wf) (sch : Schema) (row : Row) (x : Nat)
+    (hl : row.vals.length = sch.vals.length) :
+    computeInitialSize P sch row = (encMain P sch x none 0 row.keys row.vals).length := by
+  rw [encMain_length P hP, computeInitialSize, hl]
+
+/-- `calculate_new_tuple_size` is the number of bytes `add_version_with` writes -/
+theorem calcNewTupleSize_eq (P : Params) (hP : P.Wf) (sch : Schema) (L : LRow) (m : Mods) (t : Nat)
+    (hme : m.isEmpty = false) :
+    calcNewTupleSize {} P sch L.keys (applyMods m 0 L.cur.vals) L.cur.vals (changedIdx m 0 L.cur.vals)
+        (encBlock P sch 0 L.hist).length
+      = (encode P sch (L.update t m)).length := by
+  have a8 : AlignOk 8 := Or.inr (Or.inr (Or.inr rfl))
+  have hupd : L.update t m = { keys := L.keys, cur := { creator := t, ver := (L.cur.ver + 1) % 256, vals := applyMods m 0 L.cur.vals }, hist := (L.cur, changedIdx m 0 L.cur.vals) :: L.hist, deleter := none, trail := L.trail } := by
+    simp only [LRow.update, hme, Bool.false_eq_true, if_false]
+  rw [hupd, encode_eq]
+  simp only [List.isEmpty_cons, Bool.false_and, Bool.false_eq_true, if_false]
+  have hml := encMain_length P hP sch t none ((L.cur.ver + 1) % 256) L.keys (applyMods m 0 L.cur.vals)
+  generalize encMain P sch t none ((L.cur.ver + 1) % 256) L.keys (applyMods m 0 L.cur.vals) = M' at hml ⊢
+  unfold calcNewTupleSize
+  simp only [← hml, Bool.false_eq_true, if_false]
+  have hp0 : padTo 0 P.dhAlign = [] := by simp [padTo, alignUp, hP.dha, zeros]
+  have hMl : (M' ++ padTo M'.length P.dhAlign).length = alignUp M'.length P.dhAlign := by
+    rw [hP.dha]; exact length_append_padTo M' a8
+  -- the new delta
+  have hdelta : sizeChanges P sch.vals L.cur.vals
+        (alignUp M'.length P.dhAlign + P.dhSize + 1 + bitmapSize (applyMods m 0 L.cur.vals).length) (changedIdx m 0 L.cur.vals)
+      = alignUp M'.length P.dhAlign
+        + (encDelta P sch L.cur.creator L.cur.ver L.cur.vals (changedIdx m 0 L.cur.vals)).length := by
+    rw [sizeChanges_eq P hP, applyMods_length]
+    have : alignUp M'.length P.dhAlign + P.dhSize + 1 + bitmapSize L.cur.vals.length
+        = alignUp M'.length P.dhAlign + (P.dhSize + 1 + bitmapSize L.cur.vals.length) := by omega
+    rw [this, emitChanges_shift P hP _ _ _ (by rw [hP.dha]; exact alignUp_dvd8 _)]
+    simp only [encDelta, List.length_append, encDeltaHeader_length P hP, List.length_cons, List.length_nil,
+      mkBitmap_length, hP.dh]
+    omega
+  rw [hdelta]
+  generalize hDl : encDelta P sch L.cur.creator L.cur.ver L.cur.vals (changedIdx m 0 L.cur.vals) = Dl
+  cases hh : L.hist with
+  | nil =>
+    have := alignUp_ge (c := M'.length) (a := 8) a8
+    have h0 : alignUp 0 8 = 0 := by simp [alignUp]
+    simp only [encBlock, hDl, List.length_nil, List.length_append, padTo_length, List.append_nil,
+      if_true, hP.dha, h0]
+    omega
+  | cons x rest =>
+    have hne : (encBlock P sch 0 (x :: rest)).length ≠ 0 := by
+      have := encBlock_length_ge P hP sch (x :: rest) 0
+      simp only [List.length_cons] at this; omega
+    rw [if_neg hne]
+    obtain ⟨v, c⟩ := x
+    have hB : 8 ∣ alignUp M'.length P.dhAlign := by rw [hP.dha]; exact alignUp_dvd8 _
+    have hpad : (padTo Dl.length P.dhAlign).length = alignUp (alignUp M'.length P.dhAlign + Dl.length) P.dhAlign
+        - (alignUp M'.length P.dhAlign + Dl.length) := by
+      rw [padTo_length, hP.dha, alignUp_shift a8 (by rw [hP.dha] at hB; exact hB)]; omega
+    have hge := alignUp_ge (c := alignUp M'.length P.dhAlign + Dl.length) (a := 8) a8
+    have hal : Dl.length + ((padTo Dl.length P.dhAlign).length + (encDelta P sch v.creator v.ver v.vals c).length)
+        = alignUp Dl.length 8 + (encDelta P sch v.creator v.ver v.vals c).length := by
+      have := alignUp_ge (c := Dl.length) a8
+      rw [padTo_length, hP.dha]; omega
+    simp only [encBlock, hDl, hp0, List.nil_append, Nat.zero_add, List.length_append, hMl]
+    rw [hal, encBlock_shift P hP sch rest _ _ (alignUp_dvd8 _), hpad]
+    rw [hP.dha] at hge ⊢
+    omega
+
+/-! ### operation sequences -/
+
+/-- an operation with values that fit the schema and ids that fit the header fields -/
+def OpOk (P : Params) (sch : Schema) : LOp → Prop
+  | .update t m => ModsFit P sch m ∧ t < 2 ^ 64
+  | .delete t => t < 2 ^ 63
+  | .vacuum _ => True
+
+theorem run_refines (P : Params) (hP : P.Wf) (sch : Schema) (hn : sch.vals.length < 256) :
+    ∀ (ops : List LOp) (L : LRow), WfRow P sch L → (∀ op, op ∈ ops → OpOk P sch op) →
+      runB {} P sch ops (encode P sch L) = .ok (encode P sch (runL ops L)) ∧ WfRow P sch (runL ops L) := by
+  intro ops
+  induction ops with
+  | nil => intro L hw _; exact ⟨rfl, hw⟩
+  | cons op ops ih =>
+    intro L hw hops
+    have hop := hops op (by simp)
+    have hrest : ∀ o, o ∈ ops → OpOk P sch o := fun o ho => hops o (by simp [ho])
+    cases op with
+    | update t m =>
+      obtain ⟨hm, ht⟩ := hop
+      have h1 := addVersion_encode P hP sch L hw m t hm
+      have h2 := update_wf P sch L hw m t hm ht hn
+      simp only [runB, LOp.applyB, h1, runL, LOp.applyL]
+      exact ih _ h2 hrest
+    | delete t =>
+      have h1 := delete_encode P hP sch L hw t
+      have h2 := delete_wf P sch L hw t hop
+      simp only [runB, LOp.applyB, h1, runL, LOp.applyL]
+      exact ih _ h2 hrest
+    | vacuum h =>
+      have h1 := vacuum_encode P hP sch L hw h
+      have h2 := vacuum_wf P sch L hw h
+      simp only [runB, LOp.applyB, h1, runL, LOp.applyL]
+      exact ih _ h2 hrest
+
 end AxVerif.Tuple
